@@ -190,6 +190,8 @@ __CPROVER_requires(rthread.ready && !rthread.finished && rthread.cpus == NULL &&
 __CPROVER_requires(rthread.evbuf == NULL || __CPROVER_is_fresh(rthread.evbuf, 64))
 __CPROVER_requires(RT_DIRS_TMP && PARSON_PRE)
 __CPROVER_requires(FS_PRE_N(1000000u) && XENTRY_WF && g_fmt_n < 1000000u)
+/* both thread directories exist (create_thread_dir) */
+__CPROVER_requires(g_dir[T_TMP] == 1 && g_dir[T_FIN] == 1)
 /* the stream was created in tmp and all its flushed bytes are there; the initial metadata may be in any state */
 __CPROVER_requires(g_st[T_TMP][F_OBS] == S_COMPLETE && g_had[F_OBS] == 1 && g_had[F_JSON] == 0 && !g_jfin[T_TMP])
 __CPROVER_requires(g_had[F_AUX] == (g_st[T_TMP][F_AUX] == S_COMPLETE))
@@ -203,6 +205,8 @@ __CPROVER_ensures(rthread.finished == 1 && rthread.ready == 0 && !g_fd_open && !
 __CPROVER_ensures(g_fmt_n == OLD(g_fmt_n) + 1 && g_fmt_tid == rthread.tid)
 __CPROVER_ensures(!g_store_failed && (g_keys_at_store & K_FINISHED) && g_finished_at_store == 1.0)
 __CPROVER_ensures(FINAL_COMPLETE || (g_err > OLD(g_err) && COPIES_INTACT))
+/* the clean-up targets the TEMPORARY thread directory; the final one is never removed */
+__CPROVER_ensures(g_rmdir_tree == T_TMP && g_dir[T_FIN] == 1)
 __CPROVER_ensures(g_fsfault != OLD(g_fsfault) || (FINAL_COMPLETE && g_err == OLD(g_err)))
 __CPROVER_ensures(INV_CRASH && INV_NOLOSS)
 __CPROVER_ensures(g_st[T_FIN][F_JSON] == S_ABSENT || g_st[T_FIN][F_OBS] == S_COMPLETE)
@@ -518,7 +522,7 @@ __CPROVER_requires(__CPROVER_is_fresh(dir, PATH_BYTES) && (dir[0] == TAG_TMP || 
 /* a process-level directory (ovni_proc_fini) or this thread's directory (ovni_thread_free) */
 __CPROVER_requires(PATH_PROC(dir) || PATH_MINE(dir))
 __CPROVER_requires(FS_WF && FS_QUIET_N(1000000u) && INV_NOLOSS && INV_CRASH)
-__CPROVER_assigns(__CPROVER_errno, g_rmdir_errno, g_dir, DIAG_FRAME)
+__CPROVER_assigns(__CPROVER_errno, g_rmdir_errno, g_rmdir_tree, g_dir, DIAG_FRAME)
 __CPROVER_ensures((g_warn == OLD(g_warn) + 1) == (g_rmdir_errno != 0 && g_rmdir_errno != ENOTEMPTY && g_rmdir_errno != ENOENT))
 __CPROVER_ensures(g_warn == OLD(g_warn) || g_warn == OLD(g_warn) + 1)
 __CPROVER_ensures(g_err == OLD(g_err))
